@@ -786,9 +786,8 @@ def po9(facts, rep, rule='PO-9'):
             elif eng_po.orphan_match(key, PO9_AUDIT, set(facts.bodies)):
                 k0 = eng_po.orphan_match(key, PO9_AUDIT, set(facts.bodies))
                 rep.audited(rule, k2, o['where'], 'arithmetic of the removed function %s, now written in its caller: %s' % (k0.split('|')[0], PO9_AUDIT[k0]))
-            elif o.get('ty', '').startswith('u') and eng_po.implied_same_value(key, PO9_AUDIT):
-                k0 = eng_po.implied_same_value(key, PO9_AUDIT)
-                rep.audited(rule, k2, o['where'], 'computes the same value as the audited operation `%s`: %s' % (k0.split('|')[2][:60], PO9_AUDIT[k0]))
+            elif eng_po.implied(key, PO9_AUDIT, o):
+                rep.audited(rule, k2, o['where'], eng_po.implied(key, PO9_AUDIT, o)[1])
             else:
                 rep.bad(rule, key, o['where'], 'undischarged %s obligation: %s' % (o['kind'], o['detail']))
     rep.floor(rule, 'obligations', total, 30)
